@@ -1,4 +1,9 @@
+#[cfg(not(feature = "verif"))]
 use std::sync::{Arc, RwLock};
+#[cfg(feature = "verif")]
+use std::sync::Arc;
+#[cfg(feature = "verif")]
+use crate::verif_hooks::RwLock;
 
 use crate::{
     util::{self, get_significant_uint64_count_uint, BlakeRNG}, polymod,
@@ -644,6 +649,12 @@ impl Decryptor {
             context,
             secret_key_array: RwLock::new(secret_key_array),
         }
+    }
+
+    /// Verification observer: current length (in words) of the cached secret key powers.
+    #[cfg(feature = "verif")]
+    pub fn verif_secret_key_array_len(&self) -> usize {
+        self.secret_key_array.read().unwrap().len()
     }
 
     fn compute_secret_key_array(&self, max_power: usize) {
